@@ -11,7 +11,7 @@ PROP = Prop(
          "Generated: fixed witnesses; every single entry over 3 principals x 3 hosts x {*,a,ab,b} x {literal,prefixed} x 11 operations x "
          "{allow,deny}; every pair over a 384-entry alphabet; thorough adds every triple over a 96-entry alphabet and one eighth (by seed) "
          "of all ordered pairs over the 1584-entry alphabet; random sets of up to 12 entries; a malformed stream (values outside Kafka's "
-         "domain, ''/ANONYMOUS super users; compared with the model, not judged). non-trivial = some entry of the set matches some query "
+         "domain, ''/ANONYMOUS super users; compared with the model, any-resource bits judged). non-trivial = some entry of the set matches some query "
          "of the table (wire: some ALLOW entry applies to the client). distinct = distinct op lines.",
     trusted_base=["hand-written Lean model of pkg/kfake/acl.go (matchers, allowed, anyAllowed, superuser/principal glue) and of the ACL test of "
                   "handleInitProducerID, tied by differential decision tables against the real functions and through the wire",
@@ -19,24 +19,26 @@ PROP = Prop(
                   "Authorizer/AclAuthorizer.authorizeByResourceType (no network in the sandbox)",
                   "creq.clientHost() (net address parsing) is exercised by the harness, not modelled",
                   "Lean compiler/runtime for the driver"],
-    assumptions=["ACL entries are in Kafka's domain: permission ALLOW or DENY, pattern type LITERAL or PREFIXED (what kfake's CreateACLs admits)",
+    assumptions=["for the authorize half (allowed, and the cluster / transactional-id halves of InitProducerID): ACL entries are in Kafka's domain, "
+                 "permission ALLOW or DENY and pattern type LITERAL or PREFIXED (what kfake's CreateACLs admits; a matching entry with another permission value "
+                 "counts as an ALLOW in allowed). The any-resource half needs no such assumption and is judged on malformed sets too",
                  "neither '' nor 'ANONYMOUS' is configured as a super user (principal('') = principal('ANONYMOUS'))",
-                 "the any-resource check is judged for operations other than DESCRIBE / DESCRIBE_CONFIGS: Kafka's authorizeByResourceType does not "
-                 "apply implied operations while kfake's anyAllowed does; kfake and Kafka only ever ask it for WRITE on TOPIC "
-                 "(theorem anyAllowed_implied_op_differs records the difference)",
-                 "allow.everyone.if.no.acl.found=false (Kafka's default)"],
-    partial="anyAllowed = authorizeByResourceType is FALSE of the current code (anyAllowed_ne_authorizeByResourceType, decided witness); proved instead: "
-            "equality when no DENY entry is relevant to the request (anyAllowed_eq_partial), one-sidedness (anyAllowed_complete: kfake never denies what "
-            "Kafka allows), and that the proposed repair equals Kafka's rule (anyAllowedRepaired_eq).",
+                 "allow.everyone.if.no.acl.found=false (Kafka's default)",
+                 "Kafka's by-resource-type rule is taken in the AclAuthorizer / interface-default-loop form; StandardAuthorizer's extra 'hardcode' probe "
+                 "provably changes nothing for operations that no other operation implies (theorem hardcode_probe_redundant); Kafka only asks for WRITE"],
+    partial="",
 )
 MANIFEST = {
     "text": "Lean theorems for every ACL list and request: kfake's allowed (and allowedACL with the superuser short-circuit) equals Kafka's "
             "StandardAuthorizer authorize (DENY over ALLOW, ALL, implied Describe/DescribeConfigs for ALLOW only, literal/wildcard/prefixed patterns, "
-            "User:*, host *). kfake's anyAllowed equals Kafka's authorizeByResourceType only when no DENY entry is relevant; the full equality is "
-            "refuted by a decided witness and the differential check reports that class on the real code (in-process and through InitProducerID on the wire) "
-            "under the stable key anyallowed-ignores-deny. The model is tied to the code by exhaustive small-scope decision tables and random larger sets.",
+            "User:*, host *); kfake's anyAllowed (and anyAllowedACL) equals Kafka's authorizeByResourceType (wildcard-literal DENY denies; an ALLOW pattern "
+            "counts only if no DENY literal of the same name and no non-empty DENY prefix dominates it; operation equal or ALL) with no hypothesis on the "
+            "entries; the ACL test of InitProducerID is Kafka's. The model is tied to the code by exhaustive small-scope decision tables, random larger "
+            "sets and InitProducerID requests through the wire against a real kfake with SASL+ACLs. The check found that anyAllowed ignored DENY entries; "
+            "repaired in /repo 46d17aa, the old failing inputs are replayed first on every run (corpus/C34) and would be reported under the key "
+            "anyallowed-ignores-deny.",
     "note": "Trusted: Lean kernel; the hand-written model (validated differentially, not verified); the Kafka authorizer rules as transcribed from memory; "
-            "entries restricted to Kafka's domain; ''/ANONYMOUS not super users; any-resource check judged for non-implied operations only.",
-    "technique": "Lean 4 proof (induction over the ACL list against a filter-style specification, decided counterexample for the failing half) "
+            "authorize half restricted to entries of Kafka's domain; ''/ANONYMOUS not super users; creq.clientHost() exercised, not modelled.",
+    "technique": "Lean 4 proof (induction over the Go loops against a filter-style specification of Kafka's rules) "
                  "with differential correspondence against kfake in-process and over the wire",
 }
